@@ -754,3 +754,31 @@ def core_active_task_and_clean(req):
         debug.options.MAX_TASK_STACK_SIZE = old
         debug.options.DUMP_PRE_ERROR_STATE = True
     return None
+
+
+@scenario(["contexts.AsyncContext.__exit__"], ["C06"])
+def core_double_pause_on_failure(req):
+    """A task suspended inside `with Outer(): with NonAsync():` (or inside a context whose pause() raises) is failed; its generator is closed and the enclosing with-blocks run __exit__: every context must still see strictly alternating resume/pause."""
+    from asynq import asynq as A, batching, contexts
+    log = []
+    C = _mk_ctx(log)
+
+    class N(contexts.NonAsyncContext):
+        pass
+
+    @A()
+    def t():
+        with C("outer"):
+            with N():
+                yield batching.DebugBatchItem("k", 1)
+        return 1
+    _reset()
+    del log[:]
+    try:
+        t()
+    except AssertionError:
+        pass
+    msg = _alternates(log)
+    if msg:
+        return fail("context events after a task failed while suspended inside nested contexts: " + msg, events=list(log))
+    return None
